@@ -18,6 +18,11 @@ func init() {
 		&slip.FuncDoc{
 			Name: "-",
 			Args: []*slip.DocArg{
+				{
+					Name: "number",
+					Type: "number",
+					Text: "The number to subtract from or, if alone, to negate.",
+				},
 				{Name: "&rest"},
 				{
 					Name: "numbers",
